@@ -561,6 +561,9 @@ def impl_conc(case, errs, tables, policy):
             listeners.update(node.dispatcher._active_connections)
             visit_order = [c.cid for c in listeners]
             roles = {m.updateLock.name: 'U', m.accessLock.name: 'A'}
+            sublock = getattr(node.dispatcher, '_subscription_lock', None)
+            if sublock is not None:
+                roles[sublock.name] = 'S'
 
             def runprog(prog):
                 for pid, op in prog:
